@@ -201,9 +201,7 @@ func (hash *SexpHash) HashGet(env *Zlisp, key Sexp) (res Sexp, err error) {
 		}
 
 	case *SexpArray:
-		if len(sym.Val) == 1 {
-			key = sym.Val[0]
-		}
+		key = hashKeyOf(sym)
 	}
 
 	// this is kind of a hack
@@ -223,9 +221,7 @@ func (hash *SexpHash) HashGet(env *Zlisp, key Sexp) (res Sexp, err error) {
 }
 
 func (hash *SexpHash) HashGetDefault(env *Zlisp, key Sexp, defaultval Sexp) (Sexp, error) {
-	if arr, isArray := key.(*SexpArray); isArray && len(arr.Val) == 1 {
-		key = arr.Val[0] // as in HashSet: [6] names the key 6
-	}
+	key = hashKeyOf(key) // as in HashSet: [6] names the key 6
 	hashval, err := HashExpression(env, key)
 	if err != nil {
 		return SexpNull, err
@@ -250,6 +246,20 @@ func (hash *SexpHash) HashGetDefault(env *Zlisp, key Sexp, defaultval Sexp) (Sex
 }
 
 var KeyNotSymbol = fmt.Errorf("key is not a symbol")
+
+// hashKeyOf strips the one-element arrays around a key: [6], [[6]], ... all
+// name the key 6 (so that h[6]=10 works). Every entry point applies it, so
+// no stored key is itself a one-element array, which the lookups made on
+// behalf of hpair, str and json would unwrap once more and then miss.
+func hashKeyOf(key Sexp) Sexp {
+	for {
+		arr, isArray := key.(*SexpArray)
+		if !isArray || len(arr.Val) != 1 {
+			return key
+		}
+		key = arr.Val[0]
+	}
+}
 
 func (h *SexpHash) TypeCheckField(key Sexp, val Sexp) error {
 	//Q("in TypeCheckField, key='%v' val='%v'", key.SexpString(nil), val.SexpString(nil))
@@ -374,12 +384,7 @@ func (hash *SexpHash) HashSet(key Sexp, val Sexp) error {
 	if _, isComment := val.(*SexpComment); isComment {
 		return fmt.Errorf("HashSet: val cannot be comment")
 	}
-	if arr, isArray := key.(*SexpArray); isArray {
-		na := len(arr.Val)
-		if na == 1 {
-			key = arr.Val[0] // let single number keys work: h[6]=10
-		}
-	}
+	key = hashKeyOf(key) // let single number keys work: h[6]=10
 
 	err := hash.TypeCheckField(key, val)
 	if err != nil {
@@ -423,9 +428,7 @@ func (hash *SexpHash) HashSet(key Sexp, val Sexp) error {
 }
 
 func (hash *SexpHash) HashDelete(key Sexp) error {
-	if arr, isArray := key.(*SexpArray); isArray && len(arr.Val) == 1 {
-		key = arr.Val[0] // as in HashSet: [6] names the key 6
-	}
+	key = hashKeyOf(key) // as in HashSet: [6] names the key 6
 	hashval, err := HashExpression(nil, key)
 	if err != nil {
 		return err
